@@ -5,6 +5,7 @@ CONSTANTS
   MaxLen = 40
   IdxSlack = 2
   MaxPairs = 2
+  LitSizes = {}
 INVARIANTS TypeOK SizeIsCount
 POSTCONDITION TraceAccepted
 CHECK_DEADLOCK FALSE
